@@ -93,6 +93,14 @@ func genLeaf(r *coqfmt.Rng) reflect.Type {
 			}
 		}
 	case x < 15:
+		if r.Chance(1, 4) {
+			// composite map values (the duration substitution has to convert them entry by entry)
+			e := coqfmt.Pick(r, leafTypes)
+			if e.Kind() == reflect.Uint8 {
+				e = tDur
+			}
+			return reflect.MapOf(reflect.TypeOf(""), coqfmt.Pick(r, []reflect.Type{reflect.SliceOf(e), reflect.PtrTo(e)}))
+		}
 		return reflect.MapOf(reflect.TypeOf(""), coqfmt.Pick(r, leafTypes))
 	case x == 15:
 		return reflect.PtrTo(coqfmt.Pick(r, leafTypes))
@@ -486,7 +494,20 @@ func corrupt(r *coqfmt.Rng, text string) string {
 	}
 	i := sig[r.Intn(len(sig))]
 	punct := fmtTokens[curFmt]
-	switch r.Intn(7) {
+	op := r.Intn(9)
+	if op >= 7 {
+		op = 4 // the kind change of a scalar has triple weight ...
+		var strs []int
+		for _, j := range sig {
+			if strings.HasPrefix(toks[j], "\"") && j > 0 && strings.HasSuffix(strings.TrimRight(strings.Join(toks[:j], ""), " \t"), ":") {
+				strs = append(strs, j)
+			}
+		}
+		if len(strs) > 0 {
+			i = strs[r.Intn(len(strs))] // ... and then goes for a string VALUE when there is one
+		}
+	}
+	switch op {
 	case 6: // splice a token of the format in front of the chosen one
 		toks[i] = coqfmt.Pick(r, punct) + toks[i]
 	case 0: // delete
@@ -500,6 +521,9 @@ func corrupt(r *coqfmt.Rng, text string) string {
 	case 4: // change the kind of a scalar token
 		t := toks[i]
 		switch {
+		case strings.HasPrefix(t, "\"") && curFmt == 3 && r.Chance(1, 2):
+			// Cue has a second kind of quoted scalar: bytes - text for a TextUnmarshaler, ill-typed for a string
+			toks[i] = coqfmt.Pick(r, []string{"'svc'", "'1h'", "'10.0.0.1'", "'\\x03ab'", "''"})
 		case strings.HasPrefix(t, "\""):
 			toks[i] = coqfmt.Pick(r, []string{"17", "true", "\"other\"", "-3", "\"1h\"", "\"1500\"", "\"-20\"", "\"0\""})
 		case t == "true" || t == "false":
@@ -528,6 +552,11 @@ func fromAny(v interface{}) (*doc, error) {
 		return dI(x), nil
 	case uint64:
 		return dU(x), nil
+	case []byte:
+		if curFmt != 3 {
+			return nil, errOutside
+		}
+		return cfgdoc.NBy(string(x)), nil // Cue's bytes literal
 	case time.Time:
 		// TOML's offset datetime (yaml.v2 also resolves plain scalars to timestamps, but what it does
 		// with one depends on its spelling: those stay outside the document language)
@@ -917,6 +946,9 @@ func run(raw json.RawMessage) driver.Result {
 		tags = append(tags, "lib-accepts")
 		if hasKind(gd, dTime) {
 			tags = append(tags, "toml-datetime")
+		}
+		if hasKind(gd, cfgdoc.Bytes) {
+			tags = append(tags, "cue-bytes-literal")
 		}
 		if err != nil {
 			tags = append(tags, "dials-err")
